@@ -73,6 +73,11 @@ def first(t):
     return t[0]
 
 
+def mkview(x):
+    """an iterable that is not a sequence (no len-indexing): the keys view of a two-entry dict"""
+    return {x: None, x + 10: None}.keys()
+
+
 def rec3(x, tag=None, k=0):
     """a consumer that insists on the extra arguments its sink was given"""
     if tag != "t" or k != 1:
@@ -135,7 +140,7 @@ def _record(x):
 
 
 FUNCS = dict((k, _hooked(v)) for k, v in dict(inc=inc, pair=pair, add=add, odd=odd, parity=parity, ident=ident, accrs=accrs,
-                                              nxt=nxt, tsum=tsum, record=_record, addk=addk, add3=add3, gtk=gtk, accw=accw, accn=accn, odd1=odd1, first=first, rec3=rec3).items())
+                                              nxt=nxt, tsum=tsum, record=_record, addk=addk, add3=add3, gtk=gtk, accw=accw, accn=accn, odd1=odd1, first=first, rec3=rec3, mkview=mkview).items())
 
 
 # ---- node step functions ---------------------------------------------------------------------
@@ -143,6 +148,10 @@ def init_state(spec, nports=1):
     k = spec[0]
     if k == "acc":
         return (spec[2] is not None, spec[2])
+    if k == "accwsns":
+        return (False, None)
+    if k == "freq":
+        return ()
     if k in ("accws", "accrsws"):
         return 0
     if k == "accnone":
@@ -194,6 +203,18 @@ def step(spec, st, port, v, nports=1):
         return s2, [V((s2, res), v.prov)]
     if k == "filterargs":     # filter(gtk, 1, hi=2): passes 1 < x <= 2
         return st, ([v] if FUNCS["gtk"](v.val, 1, hi=2) else [])
+    if k == "accwsns":        # accumulate(accw, w=2, with_state=True) without start: first element becomes the state, emitted as (x, x)
+        if not st[0]:
+            return (True, v.val), [V((v.val, v.val), v.prov)]
+        s2 = FUNCS["accw"](st[1], v.val, w=2)
+        return (True, s2), [V((s2, s2), v.prov)]
+    if k == "flattenview":    # map(mkview).flatten(): pieces x, x+10; metadata on the last piece
+        FUNCS["mkview"](v.val)
+        return st, [V(v.val, ()), V(v.val + 10, v.prov)]
+    if k == "freq":           # frequencies(): running count of every value seen, a new dict per element
+        d = dict(st)
+        d[v.val] = d.get(v.val, 0) + 1
+        return tuple(sorted(d.items())), [V(dict(d), v.prov)]
     if k == "accws":          # accumulate(accw, start=0, w=2, with_state=True) emits (state, result)
         s2 = FUNCS["accw"](st, v.val, w=2)
         return s2, [V((s2, s2), v.prov)]
